@@ -260,8 +260,39 @@ def replay_validity(sc):
     return oracle(fix(sc), 3)
 
 
+def bag_oracle(sc, nparts, seed):
+    """the same training from a Dask bag of the statistics, cut into `nparts` partitions, as from the list (C12's comparison, run
+    here because a partition that is lost on the way makes the EM iteration fit a subset: the likelihood of the training statistics
+    then goes down)"""
+    from props import c12
+
+    sts = list(sc["sts"])
+    while len(sts) < nparts:
+        sts = sts + list(sc["sts"])
+    s12 = dict(kind="ivector", C=sc["C"], D=sc["D"], w=sc["w"], m=sc["m"], v=sc["v"], R=sc["R"], stats=sts[: max(nparts, len(sc["sts"]))], nparts=nparts, iters=2,
+               seed=seed, jfa=False)
+    ref = core.impl(lambda: c12.train(s12, False))
+    got = core.impl(lambda: c12.train(s12, True))
+    if isinstance(ref, core.ImplError):
+        return None
+    if isinstance(got, core.ImplError) or not c12.same(got, ref):
+        return {"sig": "ivector-bag-training-differs-from-list-training", "what": f"{len(s12['stats'])} statistics in {nparts} partitions, 2 iterations: "
+                f"{'raises ' + repr(got) if isinstance(got, core.ImplError) else 'T / sigma differ from those trained from the list'}"}
+    return None
+
+
 def search(ctx):
     fails, seen = [], set()
+    for i, nparts in enumerate([5, 9, 11, 3, 17, 21][: ctx.budget(3, 6)]):
+        sc = scenario(ctx, 4 * i)
+        seed = int(ctx.rng.integers(0, 10**6))
+        ctx.count("search:bag-partitions")
+        ctx.case(["bag", nparts, core.tolist(sc["T"])], nontrivial=True)
+        f = bag_oracle(sc, nparts, seed)
+        if f and f["sig"] not in seen:
+            seen.add(f["sig"])
+            f["input"] = {**{k: sc[k] for k in ("kind", "route", "int_params", "C", "D", "R", "w", "m", "v", "T", "sigma", "sts", "parts", "update_sigma", "floor", "iters", "seed")}, "bag_nparts": nparts, "bag_seed": seed}
+            fails.append(f)
     for i in range(ctx.budget(24, 240)):
         sc = scenario(ctx, i)
         ctx.count("search:" + sc["kind"])
@@ -275,6 +306,8 @@ def search(ctx):
 
 
 def replay(d):
+    if "bag_nparts" in d["input"]:
+        return bag_oracle(fix(d["input"]), d["input"]["bag_nparts"], d["input"]["bag_seed"])
     return oracle(fix(d["input"]))
 
 
